@@ -371,7 +371,7 @@ func checkC10(cx *Ctx, r *Report) {
 	if k := cx.ssoChain(newReport("tmp", "quick")); k != nil && k.persist != nil {
 		r.Check(k.persist.Idx == len(k.ch.Steps)-1, "R-ORDER", "sso:persist-last", k.persist.Pos, "nothing that can fail follows persistence", "a step that can fail follows the persist step")
 	}
-	r.Min("R-ERR", 25)
+	r.Min("R-ERR", 12)
 }
 
 // checkErrDiscipline (R-ERR) over a set of functions: every fallible call of a module function, closure, storage
